@@ -438,6 +438,12 @@ def check_sweep(rep, tier, rng, drv):
             spec = fspec(codec, "ilb", 1, 3, 50, seedbase + 2)
             for nt in threads[:: 2 if tier == "quick" else 1]:
                 lines.append(f"batch {spec} {mode} 50 {nt} -")
+        # many OPTIONAL columns with different null patterns, very small batches: every carquet_batch_reader_next is one
+        # more chance for the per-column set-up of the parallel loop (buffers, bitmaps) to collide between threads
+        spec = fspec(codec, "ILDFILDF", 1, 4, 64, seedbase + 4)
+        for mode in ("fread", "mmap", "buffer"):
+            for nt in ((8, 16) if tier == "quick" else (2, 4, 8, 12, 16)):
+                lines.append(f"batch {spec} {mode} 16 {nt} -")
         # larger pages: decoding of different columns overlaps in time
         spec = fspec(codec, "ildfli", 1, 3, 4000, seedbase + 3)
         for mode in ("fread", "mmap", "buffer"):
@@ -728,7 +734,7 @@ def replay(path):
         print("implementation:", out, "rc", rc, err[-800:])
         kv = parse_kv(out[0] if out else "FAULT")
         return 0 if (rc == 0 and kv.get("eq") == "1") else 1
-    n = 5 if not case.split()[-1].startswith("f:") else 1
+    n = 40 if not case.split()[-1].startswith("f:") else 1   # free-running cases depend on timing: repeat
     for i in range(n):   # free-running cases depend on timing: repeat
         out, rc, err = vlib.run_lines(drv, ["mk " + " ".join(case.split()[1:8]), case][(1 if case.endswith("premade") and i else 0):], env=san_env())
         o = out[-1] if out else "FAULT"
